@@ -19,7 +19,15 @@ from egsim import classes as C
 from egsim import engine, gen
 from edgegraph.builder import randgraph as RG
 
-EDGES = ["DirectedEdge", "UnDirectedEdge", "SubDirected", "SubUnDirected", "OtherTwoEnded"]
+EDGES = [
+    "DirectedEdge",
+    "UnDirectedEdge",
+    "SubDirected",
+    "SubUnDirected",
+    "OtherTwoEnded",
+    "RenamedDirected",  # constructor names its ends differently
+    "FalsyClassEdge",  # the class object itself is falsy
+]
 
 
 class Biased:
